@@ -26,6 +26,16 @@ type AState struct {
 	All              []ATx
 }
 
+// intrinsicGas is what the code under test charges for a plain transfer without data (params.TxGas), read from the
+// real IntrinsicGas so that a change of the constant reaches the model through the case lines.
+var intrinsicGas = func() uint64 {
+	g, err := core.IntrinsicGas(nil, false, true)
+	if err != nil {
+		panic(err)
+	}
+	return g
+}()
+
 type ACfg struct {
 	PriceLimit, PriceBump, AccountSlots, GlobalSlots, AccountQueue, GlobalQueue uint64
 	NoLocals                                                                    bool
@@ -36,7 +46,7 @@ func (c ACfg) String() string {
 	if c.NoLocals {
 		nl = 1
 	}
-	return fmt.Sprintf("cfg=%d,%d,%d,%d,%d,%d,%d,21000", c.PriceLimit, c.PriceBump, c.AccountSlots, c.GlobalSlots, c.AccountQueue, c.GlobalQueue, nl)
+	return fmt.Sprintf("cfg=%d,%d,%d,%d,%d,%d,%d,%d", c.PriceLimit, c.PriceBump, c.AccountSlots, c.GlobalSlots, c.AccountQueue, c.GlobalQueue, nl, intrinsicGas)
 }
 
 func lessTx(a, b ATx) bool {
@@ -270,7 +280,7 @@ func CheckReplacement(pre, post *AState, cfg ACfg, adds int) []clauseFail {
 // validNow is validateTx against the state the pool holds after the reset (non-local price floor included).
 func (s *AState) validNow(t ATx) bool {
 	return t.Kind == 0 && t.G <= s.MaxGas && (s.Local[t.S] || t.P >= s.GasPrice) && uint64(t.N) >= s.CNonce[t.S] &&
-		t.Cost() <= s.Balance[t.S] && t.G >= 21000
+		t.Cost() <= s.Balance[t.S] && t.G >= intrinsicGas
 }
 
 // CheckReorg: after a reset from old to new head every transaction of discarded \ included that is still valid must be
